@@ -972,6 +972,14 @@ func (c *client) establishRegion(reg hrpc.RegionInfo, addr string) {
 			}
 		}
 
+		select {
+		case <-c.done:
+			// the client has been closed while the region was being
+			// looked up, don't open new connections
+			return
+		default:
+		}
+
 		var client hrpc.RegionClient
 		if reg == c.adminRegionInfo {
 			// admin region is used for talking to master, so it only has one connection to
@@ -993,6 +1001,15 @@ func (c *client) establishRegion(reg hrpc.RegionInfo, addr string) {
 		dialCtx, cancel := context.WithTimeout(reg.Context(), c.regionLookupTimeout)
 		err = client.Dial(dialCtx)
 		cancel()
+
+		select {
+		case <-c.done:
+			// Close() has run in the meantime and may have missed this
+			// region client: it's on us to close it
+			client.Close()
+			return
+		default:
+		}
 
 		if err == nil {
 			if reg == c.adminRegionInfo {
